@@ -60,7 +60,10 @@ func runReflectSafe(p *core.Prog) *core.Result {
 			return true
 		}
 		if b, ok := c.Call.Value.(*ssa.Builtin); ok && b.Name() == "len" {
-			return true
+			// the length of an ordinary slice bounds an index into a reflect.Value only if the two are
+			// related: the reflect value was made with that length, or compared with it, or the slice
+			// was cut to a clamped length (seed C13/h ranged over a cache longer than the Go slice)
+			return relatedLen(c)
 		}
 		// sortable.sortLen(): every implementation answers with the length of its storage
 		if c.Call.IsInvoke() && c.Call.Method.Name() == "sortLen" {
@@ -161,7 +164,13 @@ func runReflectSafe(p *core.Prog) *core.Result {
 				return
 			}
 			if why, ok := reflectIndexAudited[core.FuncName(fn)]; ok {
-				res.OK(key, pos, "audited: "+why)
+				// the audit's reason is re-checked, not trusted: the ranged cache is cut to a length that
+				// is clamped to one of the function's parameters (the new length)
+				if clampedToParam(fn) {
+					res.OK(key, pos, "audited: "+why)
+				} else {
+					res.Bad(key, pos, "audited exception no longer applies: the cache of element wrappers is not cut to min(len(cache), new length) before its indexes are used on the reflect value ('reflect: slice index out of range' escapes to the host when Go truncated the slice)")
+				}
 				return
 			}
 			// a parameter of a helper: all call sites must be bounded
@@ -299,3 +308,90 @@ func sameReflectValue(a, b ssa.Value) bool {
 }
 
 var _ = types.Typ
+
+// clampedToParam: fn slices something as X[:l] where l is a phi of a len(...) and one of fn's
+// parameters (l := len(c); if l > size { l = size }).
+func clampedToParam(fn *ssa.Function) bool {
+	found := false
+	core.AllInstrs(fn, func(in ssa.Instruction) {
+		sl, ok := in.(*ssa.Slice)
+		if !ok || sl.High == nil {
+			return
+		}
+		ph, ok := sl.High.(*ssa.Phi)
+		if !ok {
+			return
+		}
+		hasLen, hasParam := false, false
+		for _, e := range ph.Edges {
+			if c, ok := e.(*ssa.Call); ok {
+				if b, ok := c.Call.Value.(*ssa.Builtin); ok && b.Name() == "len" {
+					hasLen = true
+				}
+			}
+			if _, ok := e.(*ssa.Parameter); ok {
+				hasParam = true
+			}
+		}
+		if hasLen && hasParam {
+			found = true
+		}
+	})
+	return found
+}
+
+// relatedLen: c = len(s); s's length is tied to a reflect.Value in c's function.
+func relatedLen(c *ssa.Call) bool {
+	fn := c.Parent()
+	arg := c.Call.Args[0]
+	ak := condKey(arg, 0)
+	sameLen := func(v ssa.Value) bool {
+		v = stripConv(v)
+		if v == ssa.Value(c) {
+			return true
+		}
+		if c2, ok := v.(*ssa.Call); ok {
+			if b, ok := c2.Call.Value.(*ssa.Builtin); ok && b.Name() == "len" && condKey(c2.Call.Args[0], 0) == ak {
+				return true
+			}
+		}
+		return false
+	}
+	isReflectLen := func(v ssa.Value) bool {
+		c2, ok := stripConv(v).(*ssa.Call)
+		if !ok {
+			return false
+		}
+		sc := c2.Call.StaticCallee()
+		return sc != nil && sc.Pkg != nil && sc.Pkg.Pkg.Path() == "reflect" && (sc.Name() == "Len" || sc.Name() == "Cap")
+	}
+	// (iii) the ranged slice itself was cut to a clamped length
+	if sl, ok := arg.(*ssa.Slice); ok && sl.High != nil {
+		if ph, ok := sl.High.(*ssa.Phi); ok {
+			for _, e := range ph.Edges {
+				if _, isParam := e.(*ssa.Parameter); isParam {
+					return true
+				}
+				if isReflectLen(e) {
+					return true
+				}
+			}
+		}
+	}
+	found := false
+	core.AllInstrs(fn, func(in ssa.Instruction) {
+		switch x := in.(type) {
+		case *ssa.Call:
+			if sc := x.Call.StaticCallee(); sc != nil && sc.Pkg != nil && sc.Pkg.Pkg.Path() == "reflect" && sc.Name() == "MakeSlice" && len(x.Call.Args) == 3 && sameLen(x.Call.Args[1]) {
+				found = true
+			}
+		case *ssa.BinOp:
+			if x.Op == token.EQL || x.Op == token.NEQ {
+				if (isReflectLen(x.X) && sameLen(x.Y)) || (isReflectLen(x.Y) && sameLen(x.X)) {
+					found = true
+				}
+			}
+		}
+	})
+	return found
+}
